@@ -774,3 +774,35 @@ Proof.
   - destruct (mstep fx g m o) as [m'|]; cbn [bind]; [apply IH | reflexivity].
   - rewrite restore_persist. apply IH.
 Qed.
+
+(** * the window of remembered headers *)
+Definition winv (s : wst) : Prop :=
+  w_len s <= w_peak s /\ w_peak s - MAX_REORG_SIZE <= w_len s
+  /\ w_rem s = w_len s - (w_peak s - MAX_REORG_SIZE).
+
+Lemma winv_init : winv winit.
+Proof. unfold winv, winit, MAX_REORG_SIZE. cbn. lia. Qed.
+Lemma winv_next s o : winv s -> winv (fst (wnext s o)).
+Proof.
+  unfold winv, MAX_REORG_SIZE. intros (H1 & H2 & H3). destruct o; cbn [wnext]; unfold MAX_REORG_SIZE.
+  - cbn [fst w_rem w_len w_peak].
+    destruct (N.min_spec 100 (w_rem s + 1)) as [[? ->] | [? ->]];
+      destruct (N.max_spec (w_peak s) (w_len s + 1)) as [[? ->] | [? ->]]; lia.
+  - destruct (w_rem s =? 0) eqn:E; cbn [fst w_rem w_len w_peak]; [auto|]. apply N.eqb_neq in E. lia.
+  - cbn [fst]. auto.
+Qed.
+Lemma winv_run ops : forall s, winv s -> winv (wrun s ops).
+Proof. induction ops as [|o r IH]; intros s H; cbn [wrun]; [exact H | apply IH, winv_next, H]. Qed.
+
+(** a disconnection is refused exactly when it would go below the creation height or more
+    than MAX_REORG_SIZE blocks below the highest block ever connected *)
+Theorem window_accepts ops :
+  let s := wrun winit ops in
+  snd (wnext s WRemove) = true <-> (0 < w_len s /\ w_peak s - w_len s < MAX_REORG_SIZE).
+Proof.
+  cbn zeta. pose proof (winv_run ops winit winv_init) as (H1 & H2 & H3).
+  set (s := wrun winit ops) in *. unfold MAX_REORG_SIZE in *. cbn [wnext].
+  destruct (w_rem s =? 0) eqn:E; cbn [snd].
+  - apply N.eqb_eq in E. split; [discriminate | lia].
+  - apply N.eqb_neq in E. split; [lia | reflexivity].
+Qed.
